@@ -165,7 +165,7 @@ def check(tier, seed):
 
     return base.standard_check(PID, tier, seed, ts, MODELS[tier], RULE, nontrivial, matchers=MATCHERS,
                                extra=extra,
-                               assumptions=["<= 7 states", "state names without '{', '}' or ','"])
+                               assumptions=["<= 7 states (60-100 for the late-split family)"])
 
 
 def replay(path, seed):
